@@ -22,6 +22,7 @@ var (
 )
 
 type gen struct {
+	noFlags  bool
 	r        *vlib.Rand
 	cfg      cfgSpec
 	thorough bool
@@ -150,9 +151,13 @@ func (g *gen) rec(key string, allowDeleted bool) recSpec {
 		case 5:
 			rs.Edits = append(rs.Edits, medit{K: "noexp"})
 		case 6:
-			rs.Edits = append(rs.Edits, medit{K: "secret"})
+			if !g.noFlags {
+				rs.Edits = append(rs.Edits, medit{K: "secret"})
+			}
 		case 7:
-			rs.Edits = append(rs.Edits, medit{K: "crown"})
+			if !g.noFlags {
+				rs.Edits = append(rs.Edits, medit{K: "crown"})
+			}
 		default:
 			if allowDeleted {
 				rs.Edits = append(rs.Edits, medit{K: "del", V: -int64(r.Intn(3)) * 61})
@@ -206,8 +211,16 @@ func (g *gen) prefix() string {
 		}
 		return k
 	case 10:
+		if g.cfg.Backend == "fstree" {
+			// a prefix that runs *below* a stored key would treat a file as a directory:
+			// outside the stated key discipline of the file tree
+			return vlib.Pick(r, "zz", "zz/", "zz/y/x", "zz/y/")
+		}
 		return vlib.Pick(r, "zz", "zz/", "a/zz/", "zz/y/x", "b/nope")
 	default:
+		if g.cfg.Backend == "fstree" {
+			return k + vlib.Pick(r, "x", "")
+		}
 		return k + vlib.Pick(r, "/", "x", "")
 	}
 }
@@ -311,8 +324,15 @@ func (g *gen) opTable() []wop {
 func genHistory(seed uint64, cfg cfgSpec, no int, thorough bool) history {
 	r := vlib.NewRand(seed, "C02/hist/"+cfg.label(), uint64(no))
 	g := &gen{r: r, cfg: cfg, thorough: thorough, live: map[string]bool{}}
+	h := history{No: no}
+	if cfg.Cache != "delayed" && no%5 == 4 {
+		// an interface without special permissions must be the same map as long as no
+		// record is marked secret / crown jewel (delayed writes require a privileged interface)
+		h.Priv = "none"
+		g.noFlags = true
+	}
 	g.genKeys()
-	h := history{No: no, Keys: g.keys}
+	h.Keys = g.keys
 	n := r.Range(20, 120)
 	tab := g.opTable()
 	tot := 0
@@ -353,7 +373,12 @@ func genHistory(seed uint64, cfg cfgSpec, no int, thorough bool) history {
 		case "get", "exists":
 			k := g.key()
 			if r.Chance(1, 8) {
-				k = vlib.Pick(r, "never", "a/never", g.key()+"x", g.key()+"/")
+				if g.cfg.Backend == "fstree" {
+					// stay inside the stated key discipline: no probe below a stored key, no empty segment
+					k = vlib.Pick(r, "zz-never", "zz/never", g.key()+"x")
+				} else {
+					k = vlib.Pick(r, "never", "a/never", g.key()+"x", g.key()+"/", g.key()+"/x")
+				}
 			}
 			h.Ops = append(h.Ops, op{K: kind, Key: k})
 		case "delete":
